@@ -43,6 +43,9 @@ def gen(c):
         for fn in ('pbkdf2', 'pbkdf2_hmac'): add('ct.call fn=%s k=%s n=%s count=%d outlen=%d' % (fn, key(rng.choice([0, 8, 70])), hx(pattern(rng, 8)), cnt, rng.choice([20, 40])), 3.0, (fn, cnt))
     for ol in (1, 8, 40):
         add('ct.call fn=prng k=%s m=%s outlen=%d' % (key(32), key(rng.choice([0, 3, 8])), ol), 2.0, ('prng', ol))
+    # a seed saved in non-volatile storage is key material: all-zero / all-ff / leading-run patterns included
+    for pat in (bytes(32), bytes([255] * 32), bytes([0] * 5 + [7] * 27), bytes([255] * 9 + [1] * 23), pattern(rng, 32, 'rand'), bytes([0]) + pattern(rng, 31, 'rand')):
+        add('ct.call fn=prng_seed k=%s m=%s outlen=%d' % (key(32), hx(pat), rng.choice([8, 40])), 2.0, ('prng_seed', pat[:2].hex()))
     return p
 
 def run(c):
